@@ -18,6 +18,8 @@ pub struct Tokenizer<'a> {
     pub chars: Iter<'a, u8>,
     in_header: bool,
     in_common: bool,
+    /// A data element has been read in the current message unit
+    had_data: bool,
 }
 
 impl<'a> Tokenizer<'a> {
@@ -36,6 +38,7 @@ impl<'a> Tokenizer<'a> {
             chars: iter,
             in_header: true,
             in_common: false,
+            had_data: false,
         }
     }
 
@@ -409,6 +412,7 @@ impl<'a> Iterator for Tokenizer<'a> {
                 util::skip_ws(&mut self.chars);
                 self.in_header = true;
                 self.in_common = false;
+                self.had_data = false;
                 Some(Ok(Token::ProgramMessageUnitSeparator))
             }
             /* Message terminator */
@@ -427,6 +431,9 @@ impl<'a> Iterator for Tokenizer<'a> {
                 self.chars.next();
                 if self.in_header {
                     Some(Err(ErrorCode::HeaderSeparatorError))
+                } else if !self.had_data {
+                    // A data separator must follow a data element
+                    Some(Err(ErrorCode::SyntaxError))
                 } else {
                     util::skip_ws(&mut self.chars);
                     if let Some(c) = self.chars.clone().next() {
@@ -497,8 +504,11 @@ impl<'a> Iterator for Tokenizer<'a> {
                 }
             }
         };
-        //extern crate std;
-        //std::dbg!(ret);
+        if let Some(Ok(tok)) = &ret {
+            if tok.is_data() {
+                self.had_data = true;
+            }
+        }
         ret
     }
 }
